@@ -1432,8 +1432,9 @@ impl LifeTrack {
         };
         self.exited.contains(&(pid, tid)) || (self.exited.contains(&(pid, pid)) && !self.procs.contains_key(&pid))
     }
-    /// a non-main thread's EXIT for a pid without live process (e.g. after the main thread's EXIT): the
-    /// converter re-creates a process entry on demand (`handle_exit` -> `get_by_pid`)
+    /// a non-main thread's EXIT for a pid without live process (e.g. after the main thread's EXIT, the kernel's
+    /// order for exit_group with a zombie leader): ignored by the converter since fix 8ede2c85
+    /// (`handle_exit` -> `get_existing_by_pid`; before, `get_by_pid` created a phantom process entry)
     pub fn orphan_thread_exit(&self, r: &Rec) -> bool {
         matches!(r, Rec::Exit { pid, tid, .. } if pid != tid && !self.procs.contains_key(pid))
     }
@@ -1836,12 +1837,20 @@ pub fn gen_history(rng: &mut Rng, shape: &Shape) -> History {
                 if !sim.live.contains_key(&pid) && !violate {
                     continue;
                 }
-                if !violate {
-                    for tid in sim.live[&pid].clone() {
+                // threads exit first - or, the kernel's order for exit_group with a zombie leader, the main
+                // thread's EXIT comes first and the siblings' EXITs find no process (ignored by the converter)
+                let leader_first = rng.chance(1, 3);
+                if leader_first {
+                    h.recs.push(Rec::Exit { pid, tid: pid, t });
+                }
+                if !violate || leader_first {
+                    for tid in sim.live.get(&pid).cloned().unwrap_or_default() {
                         h.recs.push(Rec::Exit { pid, tid, t });
                     }
                 }
-                h.recs.push(Rec::Exit { pid, tid: pid, t });
+                if !leader_first {
+                    h.recs.push(Rec::Exit { pid, tid: pid, t });
+                }
                 sim.live.remove(&pid);
                 sim.maps.remove(&pid);
             }
@@ -2035,30 +2044,8 @@ fn out_of_order_once(h: &mut History, rng: &mut Rng, kinds: OooKinds) {
             set_time(&mut recs[idx], nt);
         }
     }
-    // orphan thread EXITs (candidate finding C17-phantom-process-on-thread-exit) that the re-ordering created
-    // are taken out of the file (they occur in the fixed families of C17 only)
-    let order = loop {
-        let file: Vec<Vec<(u64, usize)>> = rounds.iter().map(|r| r.iter().map(|i| (recs[*i].time(), *i)).collect()).collect();
-        let order = sorter_delivery(&file);
-        let mut lt = LifeTrack::new(h.ref_time);
-        let mut orphan = None;
-        for i in &order {
-            if lt.orphan_thread_exit(&recs[*i]) {
-                orphan = Some(*i);
-                break;
-            }
-            lt.step(&recs[*i]);
-        }
-        match orphan {
-            Some(i) => {
-                for r in rounds.iter_mut() {
-                    r.retain(|x| *x != i);
-                }
-                rounds.retain(|r| !r.is_empty());
-            }
-            None => break order,
-        }
-    };
+    let file: Vec<Vec<(u64, usize)>> = rounds.iter().map(|r| r.iter().map(|i| (recs[*i].time(), *i)).collect()).collect();
+    let order = sorter_delivery(&file);
     // position of every original index in the delivery order
     let mut pos = vec![0usize; n];
     for (p, idx) in order.iter().enumerate() {
@@ -2099,7 +2086,6 @@ pub fn finding_enabled(id: &str) -> bool {
     std::fs::read_to_string(format!("{root}/KNOWN_FINDINGS.txt")).map(|t| t.contains(id)).unwrap_or(false)
 }
 
-pub const FINDING_PHANTOM: &str = "C17-phantom-process-on-thread-exit";
 pub const FINDING_SPECIAL: &str = "C02-special-path-not-evicting";
 pub const FINDING_BACKDATED: &str = "C02-backdated-record";
 pub const FINDING_MMAP_ARITH: &str = "C02-mmap-arith-panic";
@@ -2109,19 +2095,14 @@ pub const FINDING_MMAP_ARITH: &str = "C02-mmap-arith-panic";
 pub const SPECIAL_PATHS: [&str; 4] = ["//anon", "[heap]", "[stack]", "[vvar]"];
 
 /// Final pass over a generated history with the exact lifecycle tracker (the reference time is known only
-/// now): the non-violating stream keeps only records inside the judged grammar (`Life.stepOk`); records
-/// that show a candidate finding are dropped unless the finding is enabled (`finding_enabled`).
+/// now): the non-violating stream keeps only records inside the judged grammar (`Life.stepOk`). EXIT records of
+/// threads whose process is not alive stay in (repaired by 8ede2c85: they are ignored by the converter and
+/// judged like everything else).
 fn sanitize(h: &mut History, violate: bool) {
-    // orphan thread EXITs (candidate finding C17-phantom-process-on-thread-exit) only occur in the fixed
-    // families of C17, where what follows them is controlled
-    let phantom = false;
     let mut lt = LifeTrack::new(h.ref_time);
     let mut kept = Vec::with_capacity(h.recs.len());
     for r in h.recs.drain(..) {
         if !violate && !lt.step_ok(&r) {
-            continue;
-        }
-        if !phantom && lt.orphan_thread_exit(&r) {
             continue;
         }
         lt.step(&r);
